@@ -193,8 +193,9 @@ struct cmplx_t
     }
 
     cmplx_t& operator*=(const real_t& rhs) noexcept {
-        re *= rhs;
-        im *= rhs;
+        const real_t val = rhs;   //rhs may refer to a component of this value
+        re *= val;
+        im *= val;
         return *this;
     }
 
@@ -203,8 +204,9 @@ struct cmplx_t
     }
 
     cmplx_t& operator/=(const real_t& rhs) noexcept {
-        re = (re / rhs);
-        im = (im / rhs);
+        const real_t val = rhs;   //rhs may refer to a component of this value
+        re = (re / val);
+        im = (im / val);
         return *this;
     }
 
